@@ -41,7 +41,7 @@ def c04_projects(quick: bool, rng: random.Random) -> List[Dict[str, Any]]:
     ps += list(families.t_c04_pkginit())
     ps += list(families.t_c04_class_members()) + list(families.t_c04_generations())
     ps += list(families.t8_prefix_roots()) + list(families.t14_two_roots_facade())
-    ps += [p for p in families.t3_reexport() if p["meta"].get("idiom") in ("moved-module", "module-alias-handed-on", "names-inside-moved-class", "moved-module-with-relative-imports")
+    ps += [p for p in families.t3_reexport() if p["meta"].get("idiom") in ("moved-module", "module-alias-handed-on", "names-inside-moved-class", "moved-module-with-relative-imports", "reexporter-renamed-by-its-package")
            or (p["meta"].get("form") == "plain" and p["meta"].get("consumers") in (["o"], ["o2"], ["o", "r"]))]
     ps += list(families.t1_base_chains())[:: (6 if quick else 1)] + list(families.t6_nested_packages())
     ps += list(families.t15_rebinding()) + list(families.t_c04_cycles()) + list(families.t17_how_all_is_written())
@@ -298,6 +298,20 @@ def kf_all_not_read(w: Dict[str, Any]) -> bool:
     return bool(stars) and (w["scope"][0] in stars or any(mods[mi - 1]["name"] == first for mi in stars))
 
 
+def kf_reexporter_renamed(w: Dict[str, Any]) -> bool:
+    """Known finding (C07 reexporter-renamed-by-its-package): an object re-exported by a module that its package re-exports under
+       another name: the alias left in the defining module names a location that is outdated itself, so a name imported directly from
+       the defining module does not resolve.  Matches only a name that must resolve, denotes such an object, and is unresolved."""
+    if not str(w.get("invariant", "")).startswith("AlwaysResolves") or not w.get("expected_site"):
+        return False
+    proj = w.get("origin", {}).get("project")
+    if not proj:
+        return False
+    exp = P.expected_reexports({**proj, "family": "", "meta": {}})
+    renamed = {e["new"] for e in exp if e["kind"] == "module"}
+    return any(e["kind"] != "module" and e["site"] == list(w["expected_site"]) and any(e["new"].startswith(r + ".") for r in renamed) for e in exp)
+
+
 def kf_nested_class_scope(w: Dict[str, Any]) -> bool:
     """Known finding: a bare name read in the body of a NESTED class is looked up in the enclosing class before the module
        (Class._localNameToFullName delegates to its parent, whatever the parent is); Python never looks in the enclosing class.
@@ -387,6 +401,7 @@ def run(ctx: Ctx) -> int:
     ctx.register_matcher("object-reexported-by-several-modules-unresolved", kf_multi_reexported)
     ctx.register_matcher("nested-class-sees-enclosing-class-names", kf_nested_class_scope)
     ctx.register_matcher("all-not-one-literal-read-as-absent", kf_all_not_read)
+    ctx.register_matcher("reexported-by-a-renamed-module-unresolved", kf_reexporter_renamed)
     projs = c04_projects(ctx.quick, rng)
     counters: Dict[str, int] = collections.Counter()
     validated_names = 0
